@@ -1,8 +1,8 @@
 SPECIFICATION Spec
 CONSTANTS
   Variant = "ok"
-  Fams = {"fg", "async", "stop", "tty", "zomb", "nomon"}
-  Cfgs = {"m", "mi", "-", "i", "mo", "mio", "mb", "mib"}
+  Fams = {"fg", "async", "stop", "tty", "zomb", "nomon", "hang", "mix"}
+  Cfgs = {"m", "mi", "-", "i", "mo", "mio", "mb", "mib", "ml", "mil"}
   Enf = {TRUE, FALSE}
 INVARIANT AllLaws
 INVARIANT EmitScn
